@@ -18,10 +18,10 @@ from ..runner import Skip
 
 RULE = ("cases from rng(seed, 13, 0, i): graphs of SE(2)/SE(3) poses and R^2/R^3 landmarks (2-D, 3-D or both in one file) with odometry edges, SE(2)->R^2 landmark edges "
         "(identity offset), SE(3)->R^3 landmark edges referencing registered PARAMS_SE3OFFSET (rotated offsets, w<0), PARAMS_SE2OFFSET entries; values from hostile classes "
-        "incl. 1e-300..1e300, subnormals, negative / 2^62 / 2^64 ids, w<0 quaternions, dense information; 1..5 export/import cycles (sometimes with in-place edits of the loaded graph between cycles; sometimes an edge listed twice). every 6th case checks that inexpressible "
-        "content (R^n odometry, R^n->R^n landmark edges, SE(2) landmark edge with a non-identity - also tiny - offset, SE(3) landmark edge whose offset id is None / unregistered) is refused with an error at export or import instead of silently becoming a different graph. distinct = spec fingerprint; non-trivial = >= 2 edges and "
+        "incl. 1e-300..1e300, subnormals, negative / 2^62 / 2^64 ids, w<0 quaternions, dense information; 1..5 export/import cycles (sometimes with in-place edits of the loaded graph between cycles; sometimes an edge listed twice; the first written file is also read with registered edge types that recognise built-in lines (EdgeOdometry itself / a subclass, listed once or twice): still one edge per line). pinned: files of exactly 999/1000/1001/1024/2000/4096/8192 lines. every 6th case checks that inexpressible "
+        "content (R^n odometry, R^n->R^n landmark edges, SE(2) landmark edge with a non-identity - also tiny - offset, SE(3) landmark edge whose offset id is None (also while a different offset is registered under id 0) / unregistered) is refused with an error at export or import instead of silently becoming a different graph. distinct = spec fingerprint; non-trivial = >= 2 edges and "
         ">= 1 non-integer value.")
-REQ = ["eval:roundtrip-structure", "eval:roundtrip-vertex-poses", "eval:roundtrip-edge-measurements", "eval:roundtrip-information", "eval:roundtrip-offsets", "eval:roundtrip-chi2",
+REQ = ["class:reimport_with_registered_types_that_parse_builtin_lines", "class:file_of_exactly_1000_lines", "refusal_variant:lm_se3_offset_id_none_param0", "eval:roundtrip-structure", "eval:roundtrip-vertex-poses", "eval:roundtrip-edge-measurements", "eval:roundtrip-information", "eval:roundtrip-offsets", "eval:roundtrip-chi2",
        "eval:file-tokens-exact", "eval:element-level-roundtrip", "eval:inexpressible-content-refused", "class:family:2d", "class:family:3d", "class:family:both", "class:extreme_values", "class:meas_quat_wneg",
        "class:offset_rotated", "class:cycles>1", "class:huge_ids", "class:identical_parallel_edges", "class:edited_in_place_between_cycles"]
 PLAN = {
@@ -323,6 +323,23 @@ def roundtrip_case(ctx, i, rng):
                 return
             if not compare_graphs(ctx, g0, g, c, dict(feats, cycle=c), case):
                 return
+            if c == 1 and not ext:
+                # the same file read with registered edge types that also recognise built-in lines: still one edge per line
+                from .. import custom
+                reg = [[custom.OverridingOdometry], [M.EdgeOdometry], [M.EdgeLandmark, M.EdgeOdometry], [custom.OverridingOdometry, custom.OverridingOdometry], [M.EdgeOdometry, M.EdgeOdometry]][int(rng.integers(5))]
+                try:
+                    gc = M.Graph.from_g2o(path, custom_edge_types=list(reg))
+                    okc = len(gc._edges) == len(g._edges) and len(gc._vertices) == len(g._vertices)
+                    why = {"edges": [len(gc._edges), len(g._edges)], "registered": [t.__name__ for t in reg]}
+                    if okc:
+                        with np.errstate(all="ignore"):
+                            a_, b_ = float(gc.calc_chi2()), float(g.calc_chi2())
+                        okc = (a_ == b_) or (not math.isfinite(a_) and not math.isfinite(b_)) or abs(a_ - b_) <= 1e-12 * abs(b_)
+                        why["chi2"] = [a_, b_]
+                except Exception as ex:  # noqa: BLE001
+                    okc, why = False, {"exception": type(ex).__name__, "message": str(ex)[:200]}
+                ctx.check("roundtrip-structure", okc, dict(feats, registered_types=True), why, case)
+                ctx.count("class:reimport_with_registered_types_that_parse_builtin_lines")
             if c == 1 and edit_between and not ext:
                 # history: the loaded graph is edited in place (offset through the edge that uses it, information scaled in place, a vertex moved) and becomes
                 # the reference for the remaining cycles; the next export must write the edited graph
@@ -403,7 +420,7 @@ def graphs_same_physical(g0, g1):
 def refusal_case(ctx, i, rng, variant=None):
     """Content the format cannot express must be refused with an error (at export, or at the latest when the written file is read back) instead
     of silently becoming a different graph."""
-    variant = variant or str(rng.choice(["odo_r2", "odo_r3", "lm_r2", "lm_r3", "lm_se2_offset", "lm_se2_tiny_offset", "lm_se3_offset_id_none", "lm_se3_offset_unregistered"]))
+    variant = variant or str(rng.choice(["odo_r2", "odo_r3", "lm_r2", "lm_r3", "lm_se2_offset", "lm_se2_tiny_offset", "lm_se3_offset_id_none", "lm_se3_offset_id_none_param0", "lm_se3_offset_unregistered"]))
     params = None
     if variant.startswith("odo_r"):
         k = variant[-2:]
@@ -420,8 +437,11 @@ def refusal_case(ctx, i, rng, variant=None):
                              {"id": 3, "kind": "se3", "pose": gen.normalize_pose("se3", gen.mild_pose(rng, "se3"))}],
                 "edges": [{"type": "odo", "ids": [1, 3], "info": np.eye(6).tolist(), "est": gen.normalize_pose("se3", gen.mild_pose(rng, "se3")), "est_kind": "se3"},
                           {"type": "lm", "ids": [1, 2], "info": np.eye(3).tolist(), "est": gen.mild_pose(rng, "r3"), "est_kind": "r3", "off": off, "off_kind": "se3",
-                           "off_id": None if variant.endswith("none") else 7}]}
-        if not variant.endswith("none"):
+                           "off_id": None if "none" in variant else 7}]}
+        if variant.endswith("param0"):
+            # the edge's own offset has no id, while the parameter table holds a *different* offset under id 0
+            spec["params"] = [{"tag": "PARAMS_SE3OFFSET", "id": 0, "value": gen.normalize_pose("se3", gen.mild_pose(rng, "se3", 0.5))}]
+        elif not variant.endswith("none"):
             spec["params"] = [{"tag": "PARAMS_SE3OFFSET", "id": 3, "value": gen.normalize_pose("se3", gen.mild_pose(rng, "se3", 0.5))}]
     else:
         off = gen.mild_pose(rng, "se2", 0.5)
@@ -475,7 +495,38 @@ def pinned_f4(ctx):
     refusal_case(ctx, -1, np.random.default_rng(44), variant="lm_se2_offset")
 
 
-PINNED = [pinned_f4]
+def _line_count_case(n_lines):
+    def f(ctx):
+        """A file of exactly n_lines lines (round counts: buffer/chunk sizes a writer or reader might use)."""
+        rng = np.random.default_rng([13, n_lines])
+        nv = n_lines * 2 // 5
+        ne = n_lines - nv
+        V = [{"id": j, "kind": "se2", "pose": [float(x) for x in rng.normal(size=2) * 5] + [float(rng.uniform(-3, 3))], "fixed": False} for j in range(nv)]
+        E = []
+        for j in range(ne):
+            a, b = (j % nv, (j + 1) % nv) if j < nv else [int(x) for x in rng.choice(nv, 2, replace=False)]
+            E.append({"type": "odo", "ids": [a, b], "info": sym_info(rng, 3, False).tolist(), "est": [float(x) for x in rng.normal(size=2)] + [float(rng.uniform(-3, 3))], "est_kind": "se2"})
+        spec = {"vertices": V, "edges": E, "params": []}
+        g0 = M.build(spec)
+        d = tempfile.mkdtemp(prefix="c13-", dir=os.environ.get("VF_SCRATCH"))
+        feats = {"family": "lines=%d" % n_lines, "extreme": False}
+        case = {"generator": "_line_count_case", "n_lines": n_lines}
+        try:
+            pth = os.path.join(d, "n.g2o")
+            g0.to_g2o(pth)
+            with open(pth) as fh:
+                got = sum(1 for ln in fh if ln.strip())
+            ctx.check("file-tokens-exact", got == n_lines, dict(feats, what="line count"), {"lines_written": got, "elements": n_lines}, case)
+            g = M.Graph.from_g2o(pth)
+            compare_graphs(ctx, g0, g, 1, dict(feats, cycle=1), case)
+            ctx.count("class:file_of_exactly_%d_lines" % n_lines)
+        finally:
+            shutil.rmtree(d, ignore_errors=True)
+    f.__name__ = "lines_%d" % n_lines
+    return f
+
+
+PINNED = [pinned_f4] + [_line_count_case(n) for n in (999, 1000, 1001, 1024, 2000, 4096, 8192)]
 
 
 def _dataset_case(name):
